@@ -215,6 +215,10 @@ def materialize(case, ev):
         spec["dtype"] = "int16"
     elif pick == 2 and mx <= 2 ** 31 - 1:
         spec["dtype"] = "int32"
+    # some column variables are declared with the dtype argument next to their bounds: variable(id, (lo, hi), dtype="int")
+    h = int(core_digest(case), 16) // 4
+    spec["vars"] = [list(v[:3]) + (["int"] if (h + 3 * j) % 5 == 0 else ["bool"] if (h + 3 * j) % 5 == 1 and (v[1], v[2]) == (0, 1) else [])
+                    for j, v in enumerate(case["vars"])]
     poly = call(build.polyhedron, spec, what="constructing the polyhedron")
     rows = [(r[0], list(r[1:])) for r in case["m"]]
     index_ids = list(case["index"]) if case.get("index") else list(range(len(rows)))
